@@ -158,12 +158,7 @@ def run(ctx, repo):
                 if c not in STATES:
                     ctx.finding('R4', '%s::%s::state literal %s' % (HJ, fn.name if fn else '?', c), HJ, n.lineno,
                                 'state is assigned %r, which is not one of the six states' % c)
-            if isinstance(n.value, ast.Constant):
-                new_states = [n.value.value]
-            elif isinstance(n.value, ast.IfExp) and all(isinstance(x, ast.Constant) for x in (n.value.body, n.value.orelse)):
-                new_states = None       # handled below with its own condition
-            else:
-                new_states = consts
+            new_states = consts
             if fn is not None and fn.name != '__init__':
                 check_direction(ctx, n, fn, STATES, order, SP, new_states)
             if 'scheduled' in consts and (fn is None or fn.name != '__init__'):
@@ -281,6 +276,32 @@ def run(ctx, repo):
                     'jumps on after three consecutive failures' % sorted(extra), 'xx- at one height, x at the next')
     else:
         ctx.ok('R6', 'consecutive_failures is reset only by a clearance and by jump-off reinstatement')
+    # nobody jumps after retiring: every reinstatement (eliminated = False) is control-dependent on that athlete not having retired
+    n_re = 0
+    for f in ast.walk(mod.tree):
+        if not isinstance(f, ast.FunctionDef) or f.name == '__init__':
+            continue
+        for n in ast.walk(f):
+            if isinstance(n, ast.Assign) and isinstance(n.value, ast.Constant) and n.value.value is False and any(
+                    isinstance(t, ast.Attribute) and t.attr == 'eliminated' for t in n.targets):
+                n_re += 1
+                guarded = False
+                c, p = n, getattr(n, '_parent', None)
+                while p is not None and p is not f:
+                    if isinstance(p, ast.If) and c is not p.test:
+                        t = ast.unparse(p.test)
+                        if 'has_retired' in t:
+                            # in the orelse of `if j.has_retired`, or in the body of a test containing `not ....has_retired`
+                            if (c in p.orelse and 'not ' not in t.split('has_retired')[0][-8:]) or (c in p.body and 'not ' in t and 'has_retired' in t.split('not ')[-1]):
+                                guarded = True
+                    c, p = p, getattr(p, '_parent', None)
+                if guarded:
+                    ctx.ok('R6', '%s: reinstatement guarded by not has_retired' % f.name)
+                else:
+                    ctx.finding('R6', '%s::%s::reinstatement without a retirement guard' % (HJ, f.name), HJ, n.lineno,
+                                '%s sets eliminated = False for an athlete without testing that they have not retired: a retired athlete is '
+                                'let back in and their next jump is accepted' % f.name, 'leader retires in a jump-off, rival fails')
+    ctx.floor('reinstatement sites', n_re, 2)
     check_failed(ctx, jm['failed'])
     check_limit_test(ctx, guard)
     # limits: constants 3 (initial) and 1 (jump-off)
@@ -409,15 +430,18 @@ def check_direction(ctx, n, fn, STATES, order, SP, new_states):
                 ok = False
         if ok:
             feasible.append(s)
-    if isinstance(n.value, ast.IfExp):
-        cases = []
-        for s in feasible:
-            v = eval_state_test(n.value.test, s, STATES)
-            outs = [n.value.body.value] if v is True else [n.value.orelse.value] if v is False else \
-                [n.value.body.value, n.value.orelse.value]
-            cases += [(s, o) for o in outs]
-    else:
-        cases = [(s, o) for s in feasible for o in (new_states or [])]
+    def outs_of(e, st):
+        if isinstance(e, ast.Constant):
+            return [e.value]
+        if isinstance(e, ast.IfExp):
+            v = eval_state_test(e.test, st, STATES)
+            if v is True:
+                return outs_of(e.body, st)
+            if v is False:
+                return outs_of(e.orelse, st)
+            return outs_of(e.body, st) + outs_of(e.orelse, st)
+        return [c.value for c in ast.walk(e) if isinstance(c, ast.Constant) and isinstance(c.value, str)]
+    cases = [(s, o) for s in feasible for o in outs_of(n.value, s)]
     for s, o in cases:
         if o not in order:
             continue
